@@ -9,7 +9,9 @@ from c11 import DEF_RX
 NEEDS = ("runner", "cli")
 DEF_RX = dict(DEF_RX, scala=r"^\s*(?:case class|class|sealed trait|type) (\w+)")
 # incl. workspace crates whose names merely *start* like a crate the import collector ignores (time, http, std, serde …)
-CRATES = ["alpha", "beta-x", "gamma_y", "delta", "eps-i-lon", "time-series", "http_api", "std_ext", "serde-models"]
+CRATES = ["alpha", "beta-x", "gamma_y", "delta", "eps-i-lon", "time-series", "http_api", "std_ext", "serde-models",
+          # directory names with dots (namespaced / versioned): the part after the last dot is not a file extension
+          "acme.core", "acme.net", "shapes-0.3.1"]
 
 
 def file_name(lang, crate):
@@ -39,7 +41,8 @@ def make_workspace(rng, ncrates):
                        p_rename=0.15, p_generic=0.1)
     imports_truth = {}
     for c in crates:
-        others = [(oc, w) for oc in crates if oc != c for w in owned[oc]]
+        # a directory name with a dot cannot be written as a crate path in a `use` item: such crates are never referred to
+        others = [(oc, w) for oc in crates if oc != c and "." not in oc for w in owned[oc]]
         ext = rng.sample(others, min(len(others), rng.randint(0, 2)))
         mine = owned[c]
         f = g.file(names=mine, extern_types=[w for _, w in ext])
